@@ -358,10 +358,12 @@ func (c *fsCache) get(key string) ([]byte, error) {
 		return nil, err
 	}
 	defer f.Close()
+	verifStep("get:opened", key)
 	data, err := io.ReadAll(f)
 	if err != nil {
 		return nil, err
 	}
+	verifStep("get:read", key)
 	if c.enc != nil {
 		data, err = c.enc.Decrypt(data)
 		if err != nil {
@@ -417,19 +419,24 @@ func (c *fsCache) set(key string, entry []byte) error {
 	// renamed over it, so that readers (and a later process, if this one dies or the
 	// write fails half way) see either the previous value or the new one in full.
 	tmp := filepath.Join(dir, tempFilePrefix+rand.Text())
+	verifStep("set:begin", key)
 	f, err := c.root.OpenFile(tmp, os.O_WRONLY|os.O_CREATE|os.O_EXCL, 0o666)
 	if err != nil {
 		return err
 	}
+	verifStep("set:created", key)
 	_, err = f.Write(entry)
+	verifStep("set:written", key)
 	if err == nil {
 		err = f.Sync()
 	}
 	if cerr := f.Close(); err == nil {
 		err = cerr
 	}
+	verifStep("set:closed", key)
 	if err == nil {
 		err = c.root.Rename(tmp, name)
+		verifStep("set:renamed", key)
 	}
 	if err != nil {
 		_ = c.root.Remove(tmp)
@@ -467,6 +474,7 @@ func (c *fsCache) Delete(key string) error {
 
 func (c *fsCache) delete(key string) error {
 	err := c.root.Remove(c.fn.FileName(key))
+	verifStep("del:removed", key)
 	if err != nil {
 		if errors.Is(err, os.ErrNotExist) {
 			err = errors.Join(driver.ErrNotExist, err)
